@@ -539,7 +539,7 @@ func (t *patricia[V]) Rank(key string) int {
 
 	if t.root != nil {
 		t._traverse(t.root.left, Ascending, func(n *patriciaNode[V]) bool {
-			if n.key.String() == key {
+			if n.key.String() >= key { // keys are visited in ascending order: no later key is less than key
 				return false
 			}
 
